@@ -367,6 +367,8 @@ def first_bad_model(R, M, S, flat, lo, hi):
         if m in ("skip", "history", "nomodel"):
             continue
         r = R.get(i + 1, "crash")
+        if r.startswith("bad"):
+            r = "bad"
         if r != m:
             return i
     return None
